@@ -92,6 +92,21 @@ static void p_eventcb(struct bufferevent *bev, short what, void *a)
 	(void)bev; (void)a;
 	mc_fail("C20/harness/peer-event", "peer bufferevent got event %#x", (unsigned)what);
 }
+/* -P filt=rec: record-oriented input filter.  Passes complete 3-byte records and answers
+ * BEV_NEED_MORE for a trailing partial record, so a single arrival of 10 bytes makes
+ * be_filter_process_input() deliver 9 bytes (BEV_OK) and then end the same batch with
+ * BEV_NEED_MORE — data was transferred although the last filter result is not BEV_OK. */
+static enum bufferevent_filter_result
+rec_in(struct evbuffer *src, struct evbuffer *dst, ev_ssize_t lim, enum bufferevent_flush_mode mode, void *ctx)
+{
+	size_t have = evbuffer_get_length(src), n = have / 3 * 3;
+	(void)ctx;
+	if (mode != BEV_NORMAL) n = have;
+	else if (lim >= 0 && (size_t)lim < n) n = (size_t)lim / 3 * 3;
+	if (n == 0) return BEV_NEED_MORE;
+	MC_COUNT("record_filter_batches");
+	return evbuffer_remove_buffer(src, dst, n) >= 0 ? BEV_OK : BEV_ERROR;
+}
 static void idle(void) { event_base_loopbreak(base); }
 static void logcb(int sev, const char *m) { (void)sev; (void)m; }
 
@@ -379,7 +394,10 @@ static void body(void)
 		bufferevent_setcb(P, NULL, NULL, p_eventcb, NULL);
 		if (pwm) bufferevent_setwatermark(P, EV_READ, 0, (size_t)pwm);
 		if (type == T_PAIR) B = pr[0];
-		else { U = pr[0]; B = bufferevent_filter_new(U, NULL, NULL, bevopts, NULL, NULL); }
+		else {
+			U = pr[0];
+			B = bufferevent_filter_new(U, !strcmp(mc_param_str("filt", "id"), "rec") ? rec_in : NULL, NULL, bevopts, NULL, NULL);
+		}
 	}
 	if (!B) { mc_fail("C20/harness/setup", "bufferevent"); goto out; }
 	bufferevent_setcb(B, b_readcb, b_writecb, b_eventcb, NULL);
